@@ -106,6 +106,89 @@ def run(ctx, configs=None):
         ok = any(s["k"] == "assign" and place_fields(s["lhs"]) == ["seq"] and T.is_param(fs.origin_rvalue(s["rv"], bb, i, 0), 2) for bb, i, s in fs.stmts())
         ctx.ob("C05.counter-ownership", ok, "the sequence setter does not store its argument", fn=fs.path, construct="setter")
 
+        # ---- a failed terminator is final -------------------------------------------------------
+        # the terminator stamps and advances the counter before it hands the packet to the transport and keeps the packet pending when
+        # the transport refuses it: terminating again after a failure stamps the same packet with the next id (a gap in the ids)
+        ctx.rule("C05.failed-terminator-final", "after the Err outcome of a packet terminator no further packet-layer call is reachable in the caller")
+        from rules.C19 import uses_of as _uses_of, err_arm as _err_arm
+        term_names = {ft.path}
+        for b in prog.non_test_fns():
+            if "packet::PacketConn<" in (b.raw.get("impl_self") or "") and any(cname(t["func"]) == ft.path for _, t in b.calls() if "indirect" not in t["func"]):
+                term_names.add(b.path)
+        def _pkt_call(t):
+            if "indirect" in t["func"]:
+                return False
+            n_ = cname(t["func"])
+            cb = prog.bodies.get(n_)
+            return n_ in term_names or (cb is not None and "packet::PacketConn<" in (cb.raw.get("impl_self") or "")) or n_.startswith("writers::")
+        def _err_targets(b, local, depth=0, seen=None):
+            seen = seen if seen is not None else set()
+            if local in seen or depth > 8:
+                return []
+            seen.add(local)
+            out = []
+            for kind, bb_, i_, x in _uses_of(b, local):
+                if kind == "discr":
+                    e = _err_arm(b, local, bb_)
+                    if e is not None:
+                        out.append(e)
+                elif kind == "move" and not x["lhs"]["p"]:
+                    out += _err_targets(b, x["lhs"]["l"], depth + 1, seen)
+                elif kind == "ref" and not x["lhs"]["p"]:
+                    # is_err(&r) / is_ok(&r) tested by a branch
+                    for k2, b2, i2, x2 in _uses_of(b, x["lhs"]["l"]):
+                        if k2 == "arg" and "indirect" not in x2["func"] and re.search(r"Result::<T, E>::(is_err|is_ok)$", cname(x2["func"])) and not x2["dest"]["p"]:
+                            want_err = cname(x2["func"]).endswith("is_err")
+                            for k3, b3, i3, x3 in _uses_of(b, x2["dest"]["l"]):
+                                if k3 == "switch" and "0" in x3["vals"]:
+                                    z = x3["tgts"][x3["vals"].index("0")]
+                                    out.append(x3["otherwise"] if want_err else z)
+            return out
+        nterm = 0
+        for b in prog.non_test_fns():
+            if b.path in term_names:
+                continue
+            for bb, t in b.calls():
+                if "indirect" in t["func"] or cname(t["func"]) not in term_names or t["dest"]["p"]:
+                    continue
+                nterm += 1
+                bad = None
+                errs = set(_err_targets(b, t["dest"]["l"]))
+                if errs:
+                    from engines.paths import TooManyPaths
+                    try:
+                        # path-sensitive: branches that re-test the same result further down follow the Err outcome
+                        for p_ in enumerate_paths(b, start=bb, max_visits=2, limit=4000):
+                            hit = None
+                            for i_ in range(1, len(p_.blocks)):
+                                if hit is None and p_.blocks[i_] in errs and b.term(p_.blocks[i_ - 1])["k"] == "switch":
+                                    hit = i_
+                                elif hit is not None:
+                                    t2 = b.term(p_.blocks[i_])
+                                    if t2["k"] == "call" and _pkt_call(t2) and (i_ + 1 < len(p_.blocks) or p_.end in ("return", "stop")):
+                                        bad = (p_.blocks[i_], cname(t2["func"]))
+                                        break
+                            if hit is not None and bad is None and p_.end.startswith("cut:"):
+                                # the path was cut where it re-enters a block: look at what that block goes on to
+                                cb_ = int(p_.end[4:])
+                                for rb_ in sorted(b.reachable(cb_)):
+                                    t2 = b.term(rb_)
+                                    if t2["k"] == "call" and not b.is_cleanup(rb_) and cname(t2["func"]) in term_names:
+                                        bad = (rb_, cname(t2["func"]))
+                                        break
+                            if bad:
+                                break
+                    except TooManyPaths:
+                        for e in errs:
+                            for rb_ in sorted(b.reachable(e)):
+                                t2 = b.term(rb_)
+                                if t2["k"] == "call" and not b.is_cleanup(rb_) and _pkt_call(t2):
+                                    bad = (rb_, cname(t2["func"]))
+                                    break
+                ctx.ob("C05.failed-terminator-final", bad is None, "%s goes on to %s after %s has failed: the pending packet is stamped again with the next id"
+                       % (b.path, bad[1] if bad else "", cname(t["func"]).split("::")[-1]), fn=b.path, construct="after-failed-terminator", where=b.where(bb), nontrivial=False)
+        ctx.floor("C05.failed-terminator-final", "packet terminator call sites outside the terminator itself (%s)" % cfg, nterm, 8)
+
         # ---- seq arithmetic wraps ----------------------------------------------------------------
         import rules.C20 as C20
         nadd = 0
